@@ -430,6 +430,7 @@ harness_op(int argc, char **argv)
         /* the hole query does not look at the initialised flag but at what register_init() counted: before the first
          * register_init() of a description there is nothing it could answer from */
         if (!init_attempted) { printf("bad-op"); return; }
+        if (parse_u64(argv[1]) > UINT32_MAX || parse_u64(argv[2]) > UINT32_MAX) { printf("bad-op"); return; }   /* not a RegisterAddress / RegisterOffset */
         print_access(register_block_touches_hole(&table, (RegisterAddress)parse_u64(argv[1]), (RegisterOffset)parse_u64(argv[2])));
     } else if (strcmp(op, "rt.sanitise") == 0) {
         print_access(register_sanitise(&table));
